@@ -95,6 +95,7 @@ type Exec struct {
 	funcs    map[*ssa.Function]int
 	lit      map[*Term]bool
 	floatTexts []floatText
+	floatTextsJSON []floatText
 	inStdInit int
 }
 
